@@ -39,6 +39,30 @@ EDITS = {
         ('replicat/utils/__init__.py', "        expected_elapsed = len(data) / self._rate_limiter.read_limit\n", "        limit = self._rate_limiter.read_limit\n        expected_elapsed = len(data) / limit\n"),
         ('replicat/backends/s3c.py', "        signed_headers = \";\".join(canonical_headers)", "        signed_headers = ';'.join(list(canonical_headers))"),
     ]),
+    # equivalent refactors of the code the later contracts (rounds 2-5) talk about
+    'equivalent_refactors_2': (['C12', 'C03', 'C19', 'C20', 'C13', 'C16', 'C18', 'C02', 'C08', 'C15', 'C05', 'C07', 'C01', 'C09'], [
+        # copyfileobj's length passed positionally
+        ('replicat/backends/local.py', "                shutil.copyfileobj(stream, file, length=chunk_size)", "                shutil.copyfileobj(stream, file, chunk_size)"),
+        # the give-up predicate written with a local
+        ('replicat/backends/s3c.py', "def _check_403(e):\n    return (\n        isinstance(e, httpx.HTTPStatusError)\n        and e.response.status_code == httpx.codes.FORBIDDEN\n    )",
+         "def _check_403(e):\n    if not isinstance(e, httpx.HTTPStatusError):\n        return False\n    status = e.response.status_code\n    return status == httpx.codes.FORBIDDEN"),
+        # the tail of _load_snapshots with renamed loop variables and an explicit `is not None`
+        (R, "        async for task in utils.as_completed(future_to_path):\n            if (body := await task) is None:\n                continue\n            yield future_to_path[task], body",
+         "        async for done in utils.as_completed(future_to_path):\n            loaded = await done\n            if loaded is not None:\n                yield future_to_path[done], loaded"),
+        # cache primitives through a local
+        (R, "        file = Path(self._cache_directory, path)\n        file.parent.mkdir(parents=True, exist_ok=True)\n        file.write_bytes(data)",
+         "        entry = Path(self._cache_directory, path)\n        entry.parent.mkdir(exist_ok=True, parents=True)\n        entry.write_bytes(data)"),
+        # as_completed with a local alias of the callback
+        ('replicat/utils/__init__.py', "    for task in tasks:\n        task.add_done_callback(queue.put_nowait)", "    report = queue.put_nowait\n    for task in tasks:\n        task.add_done_callback(report)"),
+        # the restore tail with the generator bound to a name first
+        (R, "            await asyncio.gather(\n                *(\n                    loop.run_in_executor(loader, _download_chunk, *x)\n                    for x in chunks_references.items()\n                )\n            )",
+         "            jobs = (\n                loop.run_in_executor(loader, _download_chunk, *x)\n                for x in chunks_references.items()\n            )\n            await asyncio.gather(*jobs)"),
+        # parse_repository via partition-free rewrite of the length test
+        ('replicat/utils/__init__.py', "    parts = uri.split(':', 1)\n    if len(parts) < 2:", "    parts = uri.split(':', 1)\n    if len(parts) == 1:"),
+        # the chunk producer's abort check with the log line first
+        (R, "                    if abort.is_set():\n                        logging.info('Stopping chunk producer')\n                        return\n\n                    try:\n                        chunk_queue.put(chunk, timeout=queue_timeout)",
+         "                    stop = abort.is_set()\n                    if stop:\n                        logging.info('Stopping chunk producer')\n                        return\n\n                    try:\n                        chunk_queue.put(chunk, timeout=queue_timeout)"),
+    ]),
 }
 
 
